@@ -19,6 +19,8 @@ pub struct CheckDef {
     pub quick_max_runs: u64,
     pub thorough_max_runs: u64,
     pub exhaustive: bool,
+    /// number of run indices after which the finite enumerated part of the space is complete (0 = none)
+    pub exhaustive_after: fn(Tier) -> u64,
     pub real: &'static [&'static str],
     pub stub: &'static [&'static str],
     pub assumptions: &'static [&'static str],
@@ -52,8 +54,10 @@ pub mod c03;
 pub mod c04;
 pub mod c05;
 pub mod c06;
+pub mod c17;
+pub mod c20;
 
 pub fn all() -> Vec<&'static CheckDef> {
-    vec![&smoke::DEF, &c01::DEF, &c02::DEF, &c03::DEF, &c04::DEF, &c05::DEF, &c06::DEF]
+    vec![&smoke::DEF, &c01::DEF, &c02::DEF, &c03::DEF, &c04::DEF, &c05::DEF, &c06::DEF, &c17::DEF, &c20::DEF]
 }
 pub fn find(id: &str) -> Option<&'static CheckDef> { all().into_iter().find(|d| d.id.eq_ignore_ascii_case(id)) }
